@@ -87,14 +87,8 @@ def Schema.Acyclic (σ : Schema) : Prop :=
     (∀ s ∈ σ.structs, ∀ ty ∈ s.types, ∀ n, ty.refName = some n → rank n < rank s.name) ∧
     (∀ m ∈ σ.multimaps, ∀ ty ∈ m.types, ∀ n, ty.refName = some n → rank n < rank m.name)
 
-/-- triggers of the recorded PrettyPrint defects. -/
-def FType.hasArrayDict : FType → Bool
-  | .base _ => false
-  | .array e d _ => !e.dict.isEmpty || !d.isEmpty
-
-def FType.isEnumTyped (ty : FType) : Bool := !ty.inner.enum.isEmpty
-
-def Schema.PrintSafe (σ : Schema) : Prop :=
-  σ.structs ≠ [] ∧ ∀ ty ∈ σ.allTypes, ty.hasArrayDict = false ∧ ty.isEnumTyped = false
+/-- the one class of accepted schemas whose printed form is still not parseable: without any
+    root struct everything is pruned and `package a` alone is rejected. -/
+def Schema.PrintSafe (σ : Schema) : Prop := σ.structs ≠ []
 
 end Stef.Idl
